@@ -1,7 +1,7 @@
 (** C05 - cursors enumerate keys in byte order and navigate consistently.
     Cursor.v is a line-for-line model of cursor.go (compared call by call with the real cursor on the dumped
     page/node tree); ListCursor is the specification (a sorted list with a position). *)
-From Bbolt Require Import Base Spec Cursor CursorProofs.
+From Bbolt Require Import Base Spec Cursor CursorProofs CursorEnumProofs.
 Open Scope N_scope.
 
 (** The full statement - every call sequence on every well-formed tree returns what the sorted list returns - *)
@@ -34,3 +34,18 @@ Theorem C05_spec_first_next_enumerates : forall l, l <> [] ->
   list_run l Unset (CFirst :: repeat CNext (length l)) = map (fun e => show (Some e)) l ++ [(None, None)].
 Proof. exact list_first_next_enumerates. Qed.
 Print Assumptions C05_spec_first_next_enumerates.
+
+(** On every well-formed tree without emptied leaves - every committed tree, every tree seen by a read transaction - the
+    cursor model (the line-for-line model of cursor.go) enumerates: First then Next visits every element exactly once in
+    byte order and then yields nil, i.e. it agrees with the sorted-list specification on these call sequences. *)
+Theorem C05_first_next_enumerates : forall t, wf t = true -> has_empty_leaf t = false -> flatten t <> [] ->
+  api_run true (fuel_for t) t [] (CFirst :: repeat CNext (length (flatten t))) =
+  Ok (map (fun e => show (Some e)) (flatten t) ++ [(None, None)]).
+Proof. exact first_next_enumerates_wf. Qed.
+Print Assumptions C05_first_next_enumerates.
+
+Theorem C05_first_next_refines_list : forall t cs, wf t = true -> has_empty_leaf t = false -> flatten t <> [] ->
+  cs = CFirst :: repeat CNext (length (flatten t)) ->
+  api_run true (fuel_for t) t [] cs = Ok (list_run (flatten t) Unset cs).
+Proof. exact first_next_refines_list. Qed.
+Print Assumptions C05_first_next_refines_list.
